@@ -571,10 +571,12 @@ static int run_case(std::vector<std::string> args, unsigned long long padseed, c
   argv.push_back(nullptr);
   int argc = (int)args.size();
   do_install_signal_handlers = false;
-  sg4::Engine e(&argc, argv.data());
-  World world;
-  W          = &world;
-  auto* zone = e.get_netzone_root()->add_netzone_full("z");
+  // Engine and tables are never destroyed: after a (legitimate) deadlock the kernel objects still have blocked acquisitions,
+  // which their destructors refuse; the process exits right after the END line anyway.
+  auto& e     = *new sg4::Engine(&argc, argv.data());
+  auto& world = *new World;
+  W           = &world;
+  auto* zone  = e.get_netzone_root()->add_netzone_full("z");
   std::istringstream in(text);
   std::string line;
   int cur = -1;
@@ -694,7 +696,6 @@ static int run_case(std::vector<std::string> args, unsigned long long padseed, c
   e.run();
   out("%.17g - -1 END", now());
   fflush(stdout);
-  world.initial.clear();
   return 0;
 }
 
@@ -737,6 +738,7 @@ int main(int argc, char** argv)
       alarm((unsigned)budget);
       int rc = run_case(args, padseed, text);
       fflush(stdout);
+      fflush(stderr);
       exit(rc); // through exit(): the sanitizer runtimes set their exit code there
     }
     int st = 0;
